@@ -544,7 +544,7 @@ func runCrash(c CrashCase) *pbt.Result {
 	path := filepath.Join(home, confName)
 	extraPad := 0
 	if !haveStrace() {
-		extraPad = 32000 // about 2 MiB: widens the window the polling reader can hit
+		extraPad = 6000 // about 370 KiB (the writer is quadratic in the number of lines): widens the window the polling reader can hit
 	}
 	oldContent := c.content(extraPad)
 	if err := writeAt(path, oldContent, baseSec*1e9); err != nil {
